@@ -173,6 +173,9 @@ def gen_case(rng, tier, g):
             'shape': shape,
             'rows': rng.choice(['alias', 'alias', 'copy', 'plain']),
             'wrap': rng.random() < 0.15,
+            # the pipeline under test is built in method-call style, the
+            # reference in function style
+            'fluent': rng.random() < 0.15,
             'config': draw_config(rng, 0.12, exclude=('sort_buffersize',)),
             'knobs': {'sort_buffersize': rng.choice([None, None, 2, 3])}}
     if fork:
@@ -229,6 +232,7 @@ def run_case(case):
                                extra={'group': group, 'why': why})
             log.add('expected', expected)
             w, views = build(e, stack, case['tables'], tempdir=sb.path,
+                             fluent=bool(case.get('fluent')),
                              mode=case.get('rows', 'alias'),
                              wrap_sources=case.get('wrap', False))
             if case.get('fork'):
